@@ -15,6 +15,7 @@ from bfsa.symexec import Exec
 from bfsa.terms import C, NONE, Term, cval, is_const, mk, show, subterms
 
 from rules import c19
+from rules import stackrt
 
 LEVEL = "other"
 E = "register_crypto_plugin.ecdsa."
@@ -559,6 +560,99 @@ def hash_consistency_rules(prog, chk, pid):
                     "the message is hashed with the function given, else the key's default, and that digest is what is signed / verified", "the digest handed to %s is not (hashfunc or default)(data).digest()" % nxtname)
 
 
+def sig_codec_scenarios(prog, chk, pid, tier):
+    """signature encodings, encoder against decoder: raw `string` / `strings` forms with SYMBOLIC r, s (fixed-width
+    number_to_string / string_to_number as mutually inverse term constructors, licensed by C09.number-to-string-fixed-width),
+    and the DER form on enumerated (r, s) across the sign-bit boundaries; curve orders P-256, P-521 (odd byte length), secp160r1"""
+    from bfsa.exprs import sbytes
+    from rules import stackrt as R
+    import rules.stackrt as RR
+
+    P = lambda s_: "%s.%s" % (pid, s_)
+    U = E + "util"
+
+    def h_n2s(ex, fi, args, kwargs, st, node):
+        num, order = args[0], args[1]
+        if is_const(num) or not is_const(order):
+            return None
+        l = (1 + len("%x" % cval(order))) // 2
+        return sbytes([mk("byteof", num, l, i) for i in range(l)])
+
+    def h_s2n(ex, fi, args, kwargs, st, node):
+        its = ex.iter_items(args[0], st)
+        if not its:
+            return None
+        x0 = unsnap(its[0])
+        if x0.op == "byteof" and x0.args[1] == len(its) and all(unsnap(x).op == "byteof" and unsnap(x).args[0] is x0.args[0] and unsnap(x).args[1] == len(its) and unsnap(x).args[2] == i for i, x in enumerate(its)):
+            return x0.args[0]
+        return None
+
+    hooks = {U + ".number_to_string": h_n2s, U + ".string_to_number": h_s2n}
+    stk = R.Stack(prog, extra_hooks=hooks)
+
+    def run(src, args):
+        saved = RR.INLINE
+        RR.INLINE = tuple(saved) + (E + "der", E + "_compat", U)
+        try:
+            return stk.run(U, src, args)
+        finally:
+            RR.INLINE = saved
+
+    orders = {"P-256": 0xFFFFFFFF00000000FFFFFFFFFFFFFFFFBCE6FAADA7179E84F3B9CAC2FC632551, "P-521": (1 << 521) - 5, "secp160r1": 0x0100000000000000000001F4C8F927AED3CA752257}
+    r_, s_ = mk("param", "r"), mk("param", "s")
+    fe = prog.func(U + ".sigencode_string")
+    bad = None
+    for nm, n in orders.items():
+        l = (1 + len("%x" % n)) // 2
+        for form, enc, dec in (("string", "sigencode_string(r, s, %d)" % n, "sigdecode_string(e, %d)" % n), ("strings", "sigencode_strings(r, s, %d)" % n, "sigdecode_strings(e, %d)" % n)):
+            ex, res = run("def drv(r, s):\n    e = %s\n    return (e, %s)\n" % (enc, dec), {"r": r_, "s": s_})
+            if res.dead or res.ret is None or unsnap(res.ret).op != "tuple":
+                bad = bad or ((nm, form), "raises (%s)" % (ex._dead[1] if ex._dead else "?"))
+                continue
+            e_, d_ = unsnap(res.ret).args[0]
+            got = R.flat(ex, res, e_)
+            want = [mk("byteof", r_, l, i) for i in range(l)] + [mk("byteof", s_, l, i) for i in range(l)]
+            back = ex.unpack_to(d_, 2, res.state, None)
+            okl = got is not None and len(got) == 2 * l and all(a is b for a, b in zip(got, want))
+            okb = unsnap(back[0]) is r_ and unsnap(back[1]) is s_
+            if not (okl and okb):
+                bad = bad or ((nm, form), "encoding is r || s at %d bytes each: %s; decoder returns (r, s): %s" % (l, okl, okb))
+    chk.require(bad is None, P("sig-codec-raw"), fe.qualname, "string / strings forms, 3 curve orders, symbolic r and s", "%s:%d" % (fe.file, fe.lineno),
+                "the raw signature is r and s each encoded big-endian at the byte length of the order, and the decoder returns exactly (r, s)", "%s: %s" % bad if bad else "")
+    # a raw signature of the wrong total length is refused
+    n = orders["P-256"]
+    ex, res = run("def drv(x):\n    return sigdecode_string(x, %d)\n" % n, {"x": sbytes(R.syms("x", 63))})
+    ex2, res2 = run("def drv(x):\n    return sigdecode_string(x, %d)\n" % n, {"x": sbytes(R.syms("x", 65))})
+    chk.require(res.dead and res2.dead, P("sig-codec-raw-length"), U + ".sigdecode_string", "63- and 65-byte signatures for a 32-byte order", "", "raw signatures of the wrong length are refused", "a raw signature of the wrong length is decoded")
+    # DER form on enumerated values
+    fd = prog.func(U + ".sigencode_der")
+    vals = [1, 0x7F, 0x80, 0xFF, 0x100, (1 << 255) - 19, 1 << 255, n - 1]
+    bad = None
+    for rv in vals:
+        for sv in (vals[1], vals[2], vals[-1]):
+            ex, res = run("def drv():\n    e = sigencode_der(%d, %d, %d)\n    return (e, sigdecode_der(e, %d))\n" % (rv, sv, n, n), {})
+            if res.dead or res.ret is None:
+                bad = bad or ((hex(rv), hex(sv)), "raises")
+                continue
+            t = unsnap(res.ret)
+            e_, d_ = (t.args[0] if t.op == "tuple" else [C(x) for x in cval(t)])
+            got = R.flat(ex, res, e_)
+
+            def di(v):
+                m = v.to_bytes(max(1, (v.bit_length() + 7) // 8), "big")
+                if m[0] & 0x80:
+                    m = b"\x00" + m
+                return b"\x02" + bytes([len(m)]) + m
+
+            body = di(rv) + di(sv)
+            want = b"\x30" + (bytes([len(body)]) if len(body) < 0x80 else b"\x81" + bytes([len(body)])) + body
+            back = cval(d_) if is_const(d_) else tuple(cval(x) if is_const(x) else None for x in ex.unpack_to(d_, 2, res.state, None))
+            if got is None or bytes(cval(x) for x in got) != want or tuple(back) != (rv, sv):
+                bad = bad or ((hex(rv), hex(sv)), "encoding %s..., decoded %s" % (bytes(cval(x) for x in got).hex()[:24] if got else None, back))
+    chk.require(bad is None, P("sig-codec-der"), fd.qualname, "%d (r, s) pairs across the sign-bit boundaries" % (len(vals) * 3), "%s:%d" % (fd.file, fd.lineno),
+                "the DER signature is SEQUENCE { INTEGER r, INTEGER s } in minimal form and sigdecode_der returns (r, s)", "(r, s) = %s: %s" % bad if bad else "")
+
+
 def run(prog, chk, tier):
     chk.explanation = ("Only the structural part of the statement is decided: the range guards on r and s (normal forms Lt(x, 1), Lt(n-1, x), returning False) dominate the modular "
                        "inversion; the verification verdict is the ECDSA equation as a data-flow fact; signing never returns r = 0 or s = 0 and the deterministic variant "
@@ -574,5 +668,6 @@ def run(prog, chk, tier):
     digest_rules(prog, chk, "C18")
     rfc6979_rules(prog, chk, "C18")
     hash_consistency_rules(prog, chk, "C18")
+    stackrt.guarded(chk, "C18.sig-codec-scenarios", sig_codec_scenarios, prog, chk, "C18", tier)
     chk.assume("group orders are >= 2, so fixed-length signature fields are at least one byte long")
     chk.assume("numeric correctness of ECDSA (group law: C17 clauses; hash functions; RFC 6979 HMAC-DRBG) is outside this check")
